@@ -119,7 +119,7 @@ pub fn eval(case: &J) -> Outcome {
         let uni = guarded(|| a.super_union(&b));
         let int = guarded(|| a.super_intersection(&b));
         for (name, r) in [("is_subset_of", sub.as_ref().err()), ("super_union", uni.as_ref().err()), ("super_intersection", int.as_ref().err())] {
-            if let Some((loc, msg)) = r { o.fail(&format!("C18/dtype/{name}/panic/{}", site_file(loc)), format!("{name}({a}, {b}) panicked at {loc}: {msg}")); }
+            if let Some((loc, msg)) = r { o.fail(&format!("C18/dtype/{name}/panic/{}", site(loc, msg)), format!("{name}({a}, {b}) panicked at {loc}: {msg}")); }
         }
         let mut nontrivial = false;
         for (who, x) in [("a", &v), ("b", &w)] {
@@ -129,7 +129,7 @@ pub fn eval(case: &J) -> Outcome {
             match guarded(|| mem(&x.data_type(), x)) {
                 Ok(true) => {}
                 Ok(false) => o.fail(&format!("C11/dtype/own-type/{}", vname(&x.data_type())), format!("value {x} is not contained in its own inferred type {}", x.data_type())),
-                Err((loc, msg)) => o.fail(&format!("C18/dtype/own-type/panic/{}", site_file(&loc)), format!("data_type().contains({x}) panicked at {loc}: {msg}")),
+                Err((loc, msg)) => o.fail(&format!("C18/dtype/own-type/panic/{}", site(&loc, &msg)), format!("data_type().contains({x}) panicked at {loc}: {msg}")),
             }
             let in_own = mem(own, x);
             if !in_own { o.tag("gen-miss"); continue; }
@@ -165,7 +165,7 @@ pub fn eval(case: &J) -> Outcome {
     });
     match r {
         Ok((info, o)) => { out.oracle = o.oracle; out.tags = o.tags; out.imp = J::Null; let _ = info; }
-        Err((loc, msg)) => { out.fail(&format!("C18/dtype/build/panic/{}", site_file(&loc)), format!("panic at {loc}: {msg}")); out.tag("trivial"); }
+        Err((loc, msg)) => { out.fail(&format!("C18/dtype/build/panic/{}", site(&loc, &msg)), format!("panic at {loc}: {msg}")); out.tag("trivial"); }
     }
     out
 }
